@@ -5,6 +5,7 @@
 import BloomVerif.Model.PreTree
 import BloomVerif.Lemmas.NumVal
 import BloomVerif.Bridge.Leaf
+import BloomVerif.Bridge.TreePre
 namespace BloomVerif.C04
 open BloomVerif
 
@@ -178,7 +179,16 @@ theorem C04_tree (m : DataBlockMetadata) (r : RowPre) (e : Option PreExpr)
   Expr.evalOpt_mono (rowSatCond r) (evalPreCond m) PreCond.WF
     (fun c hc hs => C04_condition m r c hcov hc hs) e hwf h
 
-/-- non-vacuity: the same covered row under AND [ partition = "p", OR [ k BETWEEN 7 AND 8, t > 100 ], CONDITION nil ] meets every premise of `C04_tree` -/
+/-- **C04 on the regenerated code**: the same statement about the functions re-translated from
+    `evaluatePrefilterExpression` and `evaluatePrefilterCondition` on every run (tree walk: nil test, case
+    constants, empty-OR test, both loops' early returns and the default all read off the Go text). -/
+theorem C04_tree_generated (m : DataBlockMetadata) (r : RowPre) (e : Option PreExpr)
+    (hcov : Covers m r) (hwf : Expr.ForallOpt PreCond.WF e)
+    (h : rowSatPre r e = true) :
+    Gen.evaluatePrefilterExpressionPtr (Gen.evaluatePrefilterCondition m) e = true := by
+  rw [Bridge.evalPre_generated]; exact C04_tree m r e hcov hwf h
+
+/-- non-vacuity (of `C04_tree` and `C04_tree_generated`): the same covered row under AND [ partition = "p", OR [ k BETWEEN 7 AND 8, t > 100 ], CONDITION nil ] meets every premise of both -/
 example :
     let r : RowPre := { pid := "p", vals := fun f =>
       if f = "k" then some (.int 7) else if f = "t" then some (.rat (Rat.divInt 5 2)) else none }
@@ -190,7 +200,8 @@ example :
          [.mk "CONDITION" (some { ConditionType := "MINMAX", MinMaxFieldName := "k", MinMaxCondition := some ({ Operator := "BETWEEN", Min := 7, Max := 8 } : NumericCondition) }) [],
           .mk "CONDITION" (some { ConditionType := "MINMAX", MinMaxFieldName := "t", MinMaxCondition := some ({ Operator := "GT", Value := 100 } : NumericCondition) }) []],
        .mk "CONDITION" none []])
-    (Covers m r ∧ Expr.ForallOpt PreCond.WF e ∧ rowSatPre r e = true) ∧ evalPre m e = true := by
+    (Covers m r ∧ Expr.ForallOpt PreCond.WF e ∧ rowSatPre r e = true) ∧ evalPre m e = true ∧
+    Gen.evaluatePrefilterExpressionPtr (Gen.evaluatePrefilterCondition m) e = true := by
   intro r m e
   have hcov : Covers m r := by
     refine ⟨rfl, fun f v h => ?_⟩
@@ -203,7 +214,7 @@ example :
   have hwf : Expr.ForallOpt PreCond.WF e := by
     simp [e, Expr.ForallOpt, Expr.Forall, Expr.ForallL, PreCond.WF, NumericCondition.WF]
     decide
-  exact ⟨⟨hcov, hwf, by decide⟩, C04_tree m r e hcov hwf (by decide)⟩
+  exact ⟨⟨hcov, hwf, by decide⟩, C04_tree m r e hcov hwf (by decide), C04_tree_generated m r e hcov hwf (by decide)⟩
 
 /-- `UpdateMinMaxIndex` only widens: the updated range contains the old range and the new value. -/
 theorem update_covers (e : MinMaxIndex) (a b : Int) :
